@@ -24,7 +24,7 @@ func init() {
 		Rules: []RuleDef{
 			{ID: "C01.R1", Min: 6, Doc: "route fan-out: the Route.Dispatch call site lies in a range loop over the `routes` slice of the single loaded TableConfig, its receiver is the loop element, it is dominated by the true edge of Match on the same element, the loop exits only by exhaustion, and on every path each Match is followed by at most one Dispatch, only after a true result", Run: c01r1},
 			{ID: "C01.R2", Min: 9, Doc: "destination fan-out policy per route type (range loop over Dests(), send on the loop element's In guarded by that element's Match; all-match: no early exit; first-match: no path from the send back to the loop header; hashing: one send per call) and registry binding of names to constructors", Run: c01r2},
-			{ID: "C01.R4", Min: 10, Doc: "what is matched is what is forwarded: every route/destination filter is evaluated on the current (rewritten) metric name and the line handed to the routes is the single-space join of the same fields and filters are only installed when their construction succeeded and a line is withheld from the routes only when a drop-raw aggregation really consumed it (rules C03.R1, C04.R2, C03.R5 and C11.R3 evaluated for this property as well)", Run: func(c *Check) { c03r1(c); c04r2(c); c03r5(c); c11r3(c) }},
+			{ID: "C01.R4", Min: 10, Doc: "what is matched is what is forwarded: every route/destination filter is evaluated on the current (rewritten) metric name and the line handed to the routes is the single-space join of the same fields and filters are only installed when their construction succeeded and a line is withheld from the routes only when a drop-raw aggregation really consumed it and a runtime filter update feeds every option into the matcher parameter of the same name (rules C03.R1, C04.R2, C03.R5, C11.R3 and C03.R6 evaluated for this property as well)", Run: func(c *Check) { c03r1(c); c04r2(c); c03r5(c); c11r3(c); c03r6(c) }},
 			{ID: "C01.R3", Min: 3, Doc: "terminal accounting by path enumeration of the Dispatcher implementation: numIn.Inc exactly once; exactly one terminal class per path; rejecting outcomes are followed by no AddMaybe / Route.Dispatch / send; numUnroutable only on paths without any Route.Dispatch", Run: c01r3},
 		},
 	})
